@@ -291,6 +291,10 @@ def run_values(ctx):
     # wrapped fn receives (d, db, ...) leaves; computes an elementwise-per-example function
     seen_shapes.append({k: np.shape(v) for k, v in x.items()})
     y = {'s': np.asarray(x['a']).sum(axis=-1) * params['w'] * scale, 'a2': np.asarray(x['a']) * 2 + params['w']}
+    # leaves of the same per-example shape but different dtypes: each must arrive (and come back) in its own dtype, exactly
+    y['i_echo'] = np.asarray(x['i'])
+    y['big_mod'] = np.asarray(x['zbig']) % 7
+    y['f_echo'] = np.asarray(x['f'])
     if aux is not None:
       y['aux'] = np.asarray(aux) + 1
     return y
@@ -303,7 +307,9 @@ def run_values(ctx):
       for with_aux in (False, True):
         k += 1
         rng = np.random.default_rng(ctx.rng('psu', d, k).getrandbits(32))
-        x = {'a': rng.normal(size=(b, 3)).astype(np.float32), 'i': rng.integers(0, 9, size=(b,)).astype(np.int32)}
+        x = {'a': rng.normal(size=(b, 3)).astype(np.float32), 'i': rng.integers(0, 9, size=(b,)).astype(np.int32),
+             'f': rng.normal(size=(b,)).astype(np.float32),                                  # float32, flattened before ...
+             'zbig': (rng.integers(0, 100, size=(b,)) + 16777217).astype(np.int32)}         # ... int32 values beyond 2**24, same shape
         aux = rng.normal(size=(b, 2, 2)).astype(np.float32) if with_aux else None
         params = {'w': np.float32(1.5)}
         desc = dict(helper='pad_shard_unpad', devices=d, b=b, min_device_batch=mdb, aux=with_aux)
